@@ -71,7 +71,7 @@ theorem enumFrom_map_fst {α} : ∀ (k : Nat) (l : List α), (enumFrom k l).map 
 theorem sortByName_sorted (l : List (List Nat × Nat)) (hd : (l.map (·.1)).Nodup) :
     Pbc.Props.C14.NamesSorted (sortByName l) := by
   have hp : (sortByName l).Pairwise (fun a b => cmpBytes a.1 b.1 ≠ .gt) := by
-    refine isort_pairwise (lt := fun (a b : List Nat × Nat) => cmpBytes a.1 b.1 == .lt) ?_ ?_ ?_ l
+    refine isort_pairwise (lt := fun (a b : List Nat × Nat) => cmpBytes a.1 b.1 != .gt) ?_ ?_ ?_ l
     · intro a b c h1 h2
       cases hab : cmpBytes a.1 b.1 with
       | gt => exact absurd hab h1
@@ -81,12 +81,11 @@ theorem sortByName_sorted (l : List (List Nat × Nat)) (hd : (l.map (·.1)).Nodu
         | gt => exact absurd hbc h2
         | eq => rw [← Pbc.Props.C14.cmpBytes_eq.1 hbc]; simp [hab]
         | lt => simp [Pbc.Props.C14.cmpBytes_trans hab hbc]
-    · intro a b h; simp at h; simp [h]
+    · intro a b h; simpa using h
     · intro a b h
-      cases hba : cmpBytes b.1 a.1 with
-      | gt => exact absurd (Pbc.Props.C14.cmpBytes_swap.2 hba) (by simpa using h)
-      | eq => simp
-      | lt => simp
+      have hg : cmpBytes a.1 b.1 = .gt := by simpa using h
+      have := Pbc.Props.C14.cmpBytes_swap.2 hg
+      simp [this]
   have hn : (sortByName l).Pairwise (fun a b => a.1 ≠ b.1) := by
     have : ((sortByName l).map (·.1)).Nodup := ((isort_perm _ l).map (·.1)).nodup_iff.2 hd
     simpa [Nodup, pairwise_map] using this
@@ -121,17 +120,22 @@ theorem nameLookup_sortByName (l : List (List Nat × Nat)) (hd : (l.map (·.1)).
     have : L.getD i ([], 0) = L[i] := by rw [getD_eq_getElem?_getD, getElem?_eq_getElem hi]; rfl
     exact ⟨i, hi, by rw [this, he], by rw [this, he]⟩
 
+theorem nameKey_plain (o : POpts) (f : PField) (h : o.useOneofName = false) : nameKey o f = f.name := by
+  simp [nameKey, h]
+
 /-- C13 / C14 (ii) for generated message descriptors: for EVERY string, the by-name search over the emitted index
-    returns position `idx` of the number-sorted field table iff the field there has exactly that name. -/
-theorem field_by_name (m : PMsg) (hd : (m.fields.map (fun f => bytesOfString f.name)).Nodup)
+    returns position `idx` of the number-sorted field table iff the field there carries exactly that name.
+    (Hypothesis: the carried names are pairwise distinct — always true for field names of one message; under
+    use_oneof_field_name it excludes oneofs with several members, for which the search returns SOME member.) -/
+theorem field_by_name (m : PMsg) (hd : (m.fields.map (fun f => bytesOfString (nameKey m.opts f))).Nodup)
     (key : List Nat) (idx : Nat) :
     nameLookup (genByName m) key = some idx ↔
-      ∃ f, (sortByNumber m.fields)[idx]? = some f ∧ bytesOfString f.name = key := by
-  have hsrc : (((enumFrom 0 (sortByNumber m.fields)).map (fun (x : PField × Nat) => (bytesOfString x.1.name, x.2))).map (·.1)).Nodup := by
-    have h1 : ((enumFrom 0 (sortByNumber m.fields)).map (fun (x : PField × Nat) => (bytesOfString x.1.name, x.2))).map (·.1)
-        = (sortByNumber m.fields).map (fun f => bytesOfString f.name) := by
+      ∃ f, (sortByNumber m.fields)[idx]? = some f ∧ bytesOfString (nameKey m.opts f) = key := by
+  have hsrc : (((enumFrom 0 (sortByNumber m.fields)).map (fun (x : PField × Nat) => (bytesOfString (nameKey m.opts x.1), x.2))).map (·.1)).Nodup := by
+    have h1 : ((enumFrom 0 (sortByNumber m.fields)).map (fun (x : PField × Nat) => (bytesOfString (nameKey m.opts x.1), x.2))).map (·.1)
+        = (sortByNumber m.fields).map (fun f => bytesOfString (nameKey m.opts f)) := by
       rw [map_map]
-      have := congrArg (List.map (fun f : PField => bytesOfString f.name)) (enumFrom_map_fst 0 (sortByNumber m.fields))
+      have := congrArg (List.map (fun f : PField => bytesOfString (nameKey m.opts f))) (enumFrom_map_fst 0 (sortByNumber m.fields))
       simpa [map_map, Function.comp_def] using this
     rw [h1]
     exact ((isort_perm _ m.fields).map _).nodup_iff.2 hd
